@@ -15,7 +15,7 @@ import copy
 import json
 from concurrent.futures import ThreadPoolExecutor
 
-from harness.core import (MachineryError, model_check, read_events, require, run_drivers_parallel, run_driver, seed,
+from harness.core import (MachineryError, digest, model_check, read_events, require, run_drivers_parallel, run_driver, seed,
                           selftest_trace, spec_mutant, validate_trace, work_dir, write_events)
 
 TSPEC = "C20_HoareTrace"
@@ -62,7 +62,7 @@ def _cap(v):
 
 def run(rep, tier):
     quick = tier == "quick"
-    wd = work_dir("C20", clean=True)
+    wd = work_dir("C20", "run", clean=True)
     maxnest = 3 if quick else 4
     rep.rule = ("TLC enumerates every (program, pre, post) triple of the pools (nesting <= %d; integer and natural-number "
                 "programs), executes each reference-valid triple small-step from every precondition store (Sound, ExecAgrees) "
@@ -94,35 +94,42 @@ def run(rep, tier):
     require(len(ints) >= 1000 and nnat >= 500, "C20_Hoare emitted too few vectors")
 
     # spec -> code: two com driver processes + one imp process; the specification mutants run meanwhile
-    half = (len(ints) + 1) // 2
+    # all triples of one program go to the same process (the driver de-duplicates per program and postcondition)
+    halves = ([], [])
+    for ln in ints:
+        halves[int(digest(json.loads(ln)["prog"]), 16) % 2].append(ln)
     parts = []
-    for i, chunk in enumerate((ints[:half], ints[half:])):
+    for i, chunk in enumerate(halves):
         p = wd / ("intvec_%d.ndjson" % i)
         p.write_text("".join(chunk))
         parts.append(p)
     nrandom = 300 if quick else 12000
     jobs = [("c20", ["com", parts[i], wd / ("com_%d.ndjson" % i), seed(), nrandom // 2, maxnest, 10, 1 + i * 2000000], None)
             for i in range(2)]
-    nsem, nvcg, nrnd = (110, 36, 10) if quick else (2500, 700, 300)
-    jobs.append(("c20", ["imp", vec, semvec, wd / "imp.ndjson", seed(), nsem, nvcg, nrnd], None))
+    nsem, nvcg, nrnd = (110, 36, 10) if quick else (2000, 500, 300)
     mutants = MUTANTS[:1] if quick else MUTANTS
-    with ThreadPoolExecutor(max_workers=1) as ex:
-        fm = ex.submit(lambda: [_mutant(rep, wd, m) for m in mutants])
-        run_drivers_parallel(jobs, timeout=7200, max_workers=3)
-        fm.result()
-
-    com_path = wd / "com.ndjson"
-    com_path.write_text("".join((wd / ("com_%d.ndjson" % i)).read_text() for i in range(2)))
     totals = {}
     verdicts = {}
-    for name, path in (("com", com_path), ("imp", wd / "imp.ndjson")):
+
+    def judge(name, path, nchunks):
         evs = read_events(path)
-        v = validate_trace(TSPEC, path, wd=wd / ("tv_" + name), nchunks=4 if name == "com" else (1 if quick else 4))
+        v = validate_trace(TSPEC, path, wd=wd / ("tv_" + name), nchunks=nchunks)
         verdicts[name] = (evs, v)
         v2, tot = _cap(v)
         for k, n in tot.items():
             totals[k] = totals.get(k, 0) + n
         rep.add_trace_result(name, evs, v2)
+
+    with ThreadPoolExecutor(max_workers=2) as ex:
+        fm = ex.submit(lambda: [_mutant(rep, wd, m) for m in mutants])
+        fi = ex.submit(run_driver, "c20", ["imp", vec, semvec, wd / "imp.ndjson", seed(), nsem, nvcg, nrnd], timeout=7200)
+        run_drivers_parallel(jobs, timeout=7200, max_workers=2)
+        com_path = wd / "com.ndjson"
+        com_path.write_text("".join((wd / ("com_%d.ndjson" % i)).read_text() for i in range(2)))
+        judge("com", com_path, 3 if not fi.done() else 4)
+        fi.result()
+        fm.result()
+    judge("imp", wd / "imp.ndjson", 1 if quick else 4)
     rep.notes["failing_events_per_clause"] = totals
     rep.notes["reported_per_clause_cap"] = MAX_REPORTED_PER_CLAUSE
 
@@ -157,21 +164,30 @@ def run(rep, tier):
             c["post"] = FALSE_POST
             c["tid"] = 9300000 + len(bad_vcg)
             bad_vcg.append(c)
-    if bad_sound:
-        selftest_trace(rep, TSPEC, bad_sound, "VcSound", wd=wd)
-    else:
-        # on a tree where every examined event already fails PrintParse, corrupt failing ones instead
+    if not bad_sound:
+        # on a tree where every examined event already fails another clause, corrupt failing ones instead
         for e in evs:
             if e["tid"] in nt and e["mode"] == "fresh" and len(bad_sound) < 3:
                 c = copy.deepcopy(e)
                 c["post"] = FALSE_POST
                 c["tid"] = 9000000 + len(bad_sound)
                 bad_sound.append(c)
-        selftest_trace(rep, TSPEC, bad_sound, "VcSound", wd=wd)
-    if bad_pp:
-        selftest_trace(rep, TSPEC, bad_pp, "PrintParse", wd=wd)
-    selftest_trace(rep, TSPEC, bad_sem, "EvalSemFinal", wd=wd)
-    selftest_trace(rep, TSPEC, bad_vcg, "VcgSound", wd=wd)
+    # one TLC run for all corrupted events; every one must be rejected with the clause it was built for
+    expect = {}
+    for lst, clause in ((bad_sound, "VcSound"), (bad_pp, "PrintParse"), (bad_sem, "EvalSemFinal"), (bad_vcg, "VcgSound")):
+        require(lst, "C20 self-test: no event available to corrupt for clause %s" % clause)
+        for c in lst:
+            expect[c["tid"]] = clause
+    st_path = wd / "selftest.ndjson"
+    write_events(st_path, bad_sound + bad_pp + bad_sem + bad_vcg)
+    sv = validate_trace(TSPEC, st_path, wd=wd / "selftest_tv", nchunks=1)
+    got = {f["tid"]: f["fail"] for f in sv["fails"]}
+    missed = [(t, c) for t, c in expect.items() if c not in got.get(t, [])]
+    if missed:
+        raise MachineryError("self-test: %s accepted corrupted events %s" % (TSPEC, missed[:5]))
+    for clause in ("VcSound", "PrintParse", "EvalSemFinal", "VcgSound"):
+        rep.notes.setdefault("selftests", []).append({"spec": TSPEC, "all_rejected_with": clause,
+                                                      "corrupted_events": sum(1 for c in expect.values() if c == clause)})
 
     # ---- vacuity guards
     acc = rep.notes["traces"]
